@@ -453,6 +453,8 @@ pub fn gen_cases<G: AffineRepr>(seed: u64, tier: &str, stream: &str, curve_idx: 
         ("violate", false) => 16,
         ("statement", false) => 40,
         ("forge", false) => 16,
+        ("cancelrows", false) => 24,
+        ("cancelrows", true) => 48,
         ("manycons", false) => 9,
         ("manycons", true) => 21,
         ("large", false) => 8,
@@ -860,6 +862,46 @@ pub fn gen_cases<G: AffineRepr>(seed: u64, tier: &str, stream: &str, curve_idx: 
                 c.model = false;
                 c.tag = format!("manycons pair={} total={}", q, total);
                 out.push(c);
+            }
+            // witnesses violating TWO (or three) rows whose errors cancel when the rows are given equal (or linearly related)
+            // weights: a short row c.X = 0 (one term, or the same variable twice, or with a zero-coefficient companion),
+            // violated by c.val(X), next to a row with error -c.val(X); every order, both phases, X a gate output / input /
+            // committed value; and triples with errors e, -2e, e.  Each row alone is violated, so the proof must be rejected.
+            "cancelrows" => {
+                let one = F::<G>::from(1u64);
+                let v = F::<G>::rand(&mut rng);
+                let (l, r) = (F::<G>::rand(&mut rng), F::<G>::rand(&mut rng));
+                let c = if k % 5 == 0 { one } else { F::<G>::rand(&mut rng) };
+                let d = F::<G>::rand(&mut rng);
+                let (xvar, xval) = match k % 3 { 0 => (V::Out(0), l * r), 1 => (V::Committed(0), v), _ => (V::Left(0), l) };
+                let (yvar, yval) = match (k / 3) % 2 { 0 => (V::Right(0), r), _ => (V::Committed(0), v) };
+                let form = (k / 6) % 4;
+                let e = c * xval;
+                let short: Lcx<F<G>> = match form {
+                    0 | 3 => vec![(xvar.clone(), Sx::C(c))],
+                    1 => vec![(xvar.clone(), Sx::C(c - one)), (xvar.clone(), Sx::C(one))],
+                    _ => vec![(xvar.clone(), Sx::C(c)), (yvar.clone(), Sx::C(F::<G>::zero()))],
+                };
+                let bal = |err: F<G>| -> Lcx<F<G>> { vec![(yvar.clone(), Sx::C(d)), (V::One, Sx::C(-(d * yval) + err))] };
+                let rows: Vec<Lcx<F<G>>> = if form == 3 {
+                    // e, -2e, e with the short row in the middle scaled by -2
+                    vec![bal(e), vec![(xvar.clone(), Sx::C(-(c + c)))], bal(e)]
+                } else if (k / 24) % 2 == 0 { vec![short, bal(-e)] } else { vec![bal(-e), short] };
+                let in_closure = (k / 2) % 2 == 1;
+                let mut prog: Vec<COp<F<G>>> = vec![COp::Commit(v, F::<G>::rand(&mut rng)), COp::AllocMul(Some((l, r)))];
+                // some satisfied rows in front so that the pair sits at varying positions
+                for i in 0..(k % 4) {
+                    let c1 = F::<G>::from((i as u64) * 5 + 2);
+                    prog.push(COp::Constrain(vec![(V::Committed(0), Sx::C(c1)), (V::One, Sx::C(-(c1 * v)))]));
+                }
+                if in_closure {
+                    prog.push(COp::Randomize(rows.into_iter().map(ROp::Constrain).collect()));
+                } else {
+                    for t in rows { prog.push(COp::Constrain(t)); }
+                }
+                let mut cse = R1csCase::plain(id, prog, 1, 1, rng.gen());
+                cse.tag = format!("violate-cancelrows form={} x={} closure={} front={}", form, k % 3, in_closure as u8, k % 4);
+                out.push(cse);
             }
             // a violated constraint stated BEFORE the variable it mentions exists (committed later / allocated later):
             // by the time of proving every mentioned variable exists, so the constraint counts like any other
